@@ -556,7 +556,7 @@ fn run_case(gen: &str, _index: u64, seed: u64, tier: Tier, rep: &mut Report) {
                 ..Default::default()
             };
             let c = gen_case(&mut rng, &o, 3);
-            let r = run_exchange::<Bytes>(&c, 3_000_000);
+            let r = run_exchange::<Bytes>(&c, 10_000_000);
             evaluate(&c, &r, rep, "Bytes");
         }
         "exchange_big_body" => {
@@ -575,7 +575,7 @@ fn run_case(gen: &str, _index: u64, seed: u64, tier: Tier, rep: &mut Report) {
             } else {
                 c.resps[0].resp.body = big_body(&mut rng);
             }
-            let r = run_exchange::<Bytes>(&c, 20_000_000);
+            let r = run_exchange::<Bytes>(&c, 60_000_000);
             evaluate(&c, &r, rep, "Bytes");
         }
         "exchange_segbuf" => {
@@ -584,7 +584,7 @@ fn run_case(gen: &str, _index: u64, seed: u64, tier: Tier, rep: &mut Report) {
                 ..Default::default()
             };
             let c = gen_case(&mut rng, &o, 2);
-            let r = run_exchange::<SegBuf>(&c, 3_000_000);
+            let r = run_exchange::<SegBuf>(&c, 10_000_000);
             evaluate(&c, &r, rep, "SegBuf");
         }
         _ => {}
